@@ -350,27 +350,8 @@ func (pConn *PFCPConn) handleSessionModificationRequest(msg message.Message) (me
 		addQERs = append(addQERs, q)
 	}
 
-	// marks the session QER in session.qers and in addQERs
-	session.MarkSessionQer(addQERs[:createdQERs], addQERs)
-
-	updated := PacketForwardingRules{
-		pdrs: addPDRs,
-		fars: addFARs,
-		qers: addQERs,
-	}
-
-	cause := upf.SendMsgToUPF(upfMsgTypeMod, session.PacketForwardingRules, updated)
-	if cause == ie.CauseRequestRejected {
-		return sendError(ErrWriteToDatapath)
-	}
-
-	if upf.enableEndMarker {
-		err := upf.SendEndMarkers(&endMarkerList)
-		if err != nil {
-			logger.PfcpLog.Errorln("sending End Markers Failed:", err)
-		}
-	}
-
+	// Look up the rules to remove before anything is written to the datapath: a
+	// request that names an unknown rule is rejected as a whole, not half-way.
 	delPDRs := make([]pdr, 0, MaxItems)
 	delFARs := make([]far, 0, MaxItems)
 	delQERs := make([]qer, 0, MaxItems)
@@ -415,6 +396,27 @@ func (pConn *PFCPConn) handleSessionModificationRequest(msg message.Message) (me
 		}
 
 		delQERs = append(delQERs, *q)
+	}
+
+	// marks the session QER in session.qers and in addQERs
+	session.MarkSessionQer(addQERs[:createdQERs], addQERs)
+
+	updated := PacketForwardingRules{
+		pdrs: addPDRs,
+		fars: addFARs,
+		qers: addQERs,
+	}
+
+	cause := upf.SendMsgToUPF(upfMsgTypeMod, session.PacketForwardingRules, updated)
+	if cause == ie.CauseRequestRejected {
+		return sendError(ErrWriteToDatapath)
+	}
+
+	if upf.enableEndMarker {
+		err := upf.SendEndMarkers(&endMarkerList)
+		if err != nil {
+			logger.PfcpLog.Errorln("sending End Markers Failed:", err)
+		}
 	}
 
 	deleted := PacketForwardingRules{
